@@ -38,6 +38,11 @@ pub enum Ev {
 	HRej,
 	URej,
 	UEmpty,
+	/// a notify event (kind index, number of paths) delivered through the fs source's real
+	/// callback; passes the filter
+	FsPass(u8, u8),
+	/// the same, rejected by the filter
+	FsRej(u8, u8),
 }
 
 pub const ALL_EV: [Ev; 9] = [Ev::NPass, Ev::NRej, Ev::NErr, Ev::NEmpty, Ev::LPass, Ev::HPass, Ev::HRej, Ev::URej, Ev::UEmpty];
@@ -60,7 +65,7 @@ impl Ev {
 	/// scripted filter verdict carried in the event's metadata
 	pub fn verdict(self) -> &'static str {
 		match self {
-			Ev::NRej | Ev::HRej | Ev::URej => "rej",
+			Ev::NRej | Ev::HRej | Ev::URej | Ev::FsRej(..) => "rej",
 			Ev::NErr => "err",
 			_ => "pass",
 		}
@@ -71,6 +76,12 @@ impl Ev {
 	}
 	pub fn bypasses_filter(self) -> bool {
 		self.urgent() || self.empty()
+	}
+	pub fn fs(self) -> Option<(u8, u8)> {
+		match self {
+			Ev::FsPass(k, n) | Ev::FsRej(k, n) => Some((k, n)),
+			_ => None,
+		}
 	}
 }
 
@@ -124,6 +135,8 @@ pub enum L {
 	MainEnded { t: u64, result: String },
 	Drain,
 	Note(String),
+	FsTags { id: usize, tags: String },
+	FsOverflow { id: usize },
 }
 
 #[derive(Default)]
@@ -158,13 +171,63 @@ fn render(l: &L) -> String {
 		L::MainEnded { t, result } => format!("t{t} main ended: {result}"),
 		L::Drain => "-- drain --".into(),
 		L::Note(s) => s.clone(),
+		L::FsTags { id, tags } => format!("fs event #{id} tags {tags}"),
+		L::FsOverflow { id } => format!("fs event #{id} overflowed the event queue"),
 	}
 }
 
 const EMPTY_ID_BASE: usize = 1000;
 
+/// Every `notify::EventKind` value.
+pub fn all_kinds() -> Vec<notify::EventKind> {
+	use notify::event::{AccessKind as A, AccessMode as M, CreateKind as C, DataChange as D, EventKind as K, MetadataKind as Me, ModifyKind as Mo, RemoveKind as R, RenameMode as Rn};
+	let mut v = vec![K::Any, K::Other];
+	let modes = [M::Any, M::Execute, M::Read, M::Write, M::Other];
+	v.extend([K::Access(A::Any), K::Access(A::Read), K::Access(A::Other)]);
+	v.extend(modes.iter().map(|m| K::Access(A::Open(*m))));
+	v.extend(modes.iter().map(|m| K::Access(A::Close(*m))));
+	v.extend([C::Any, C::File, C::Folder, C::Other].map(K::Create));
+	v.extend([K::Modify(Mo::Any), K::Modify(Mo::Other)]);
+	v.extend([D::Any, D::Size, D::Content, D::Other].map(|d| K::Modify(Mo::Data(d))));
+	v.extend([Me::Any, Me::AccessTime, Me::WriteTime, Me::Permissions, Me::Ownership, Me::Extended, Me::Other].map(|d| K::Modify(Mo::Metadata(d))));
+	v.extend([Rn::Any, Rn::To, Rn::From, Rn::Both, Rn::Other].map(|d| K::Modify(Mo::Name(d))));
+	v.extend([R::Any, R::File, R::Folder, R::Other].map(K::Remove));
+	v
+}
+
+fn fs_paths(id: usize, n: u8) -> Vec<std::path::PathBuf> {
+	// the first path is deliberately not normalised
+	(0..n).map(|i| if i == 0 { format!("/w/a/./sub/../f{id}").into() } else { format!("/w/a/g{id}").into() }).collect()
+}
+
+fn fs_notify_event(id: usize, ev: Ev) -> notify::Event {
+	let (k, n) = ev.fs().expect("fs event");
+	let mut e = notify::Event::new(all_kinds()[k as usize]);
+	for p in fs_paths(id, n) {
+		e = e.add_path(p);
+	}
+	e.set_info(&format!("{}{id}", if ev.verdict() == "rej" { "rej" } else { "ok" }))
+}
+
+/// What `process_event` must turn that notify event into.
+fn fs_expected_tags(id: usize, ev: Ev) -> String {
+	let (k, n) = ev.fs().expect("fs event");
+	let mut tags = vec![Tag::Source(Source::Filesystem), Tag::FileEventKind(all_kinds()[k as usize])];
+	for i in 0..n {
+		tags.push(Tag::Path { path: if i == 0 { format!("/w/a/f{id}").into() } else { format!("/w/a/g{id}").into() }, file_type: None });
+	}
+	format!("{tags:?}")
+}
+
 fn event_id(e: &Event) -> usize {
-	e.metadata.get("id").and_then(|v| v.first()).and_then(|s| s.parse().ok()).unwrap_or(9999)
+	if let Some(id) = e.metadata.get("id").and_then(|v| v.first()).and_then(|s| s.parse().ok()) {
+		return id;
+	}
+	e.metadata
+		.get("file-event-info")
+		.and_then(|v| v.first())
+		.and_then(|s| s.trim_start_matches(|c: char| c.is_ascii_alphabetic()).parse().ok())
+		.unwrap_or(9999)
 }
 
 #[derive(Debug)]
@@ -173,6 +236,9 @@ impl Filterer for ScriptedFilter {
 	fn check_event(&self, e: &Event, _p: Priority) -> Result<bool, RuntimeError> {
 		let id = event_id(e);
 		w(|x| x.log.push(L::FilterCall { id }));
+		if e.metadata.get("file-event-info").and_then(|v| v.first()).map_or(false, |s| s.starts_with("rej")) {
+			return Ok(false);
+		}
 		match e.metadata.get("v").and_then(|v| v.first()).map(String::as_str) {
 			Some("rej") => Ok(false),
 			Some("err") => Err(RuntimeError::External(format!("filter-error-{id}").into())),
@@ -204,6 +270,15 @@ impl Future for GateWait {
 		} else {
 			g.1 = Some(cx.waker().clone());
 			Poll::Pending
+		}
+	}
+}
+
+fn log_fs_tags(events: &[Event]) {
+	for e in events {
+		if e.tags.contains(&Tag::Source(Source::Filesystem)) {
+			let id = event_id(e);
+			w(|x| x.log.push(L::FsTags { id, tags: format!("{:?}", e.tags) }));
 		}
 	}
 }
@@ -256,7 +331,14 @@ fn install_errh(config: &Config, beh: ErrBeh, gen: usize) {
 			x.errh_calls += 1;
 			x.errh_calls
 		});
-		let text = e.error.to_string();
+		let mut text = e.error.to_string();
+		if let RuntimeError::EventChannelTrySend { .. } = &e.error {
+			let dbg = format!("{:?}", e.error);
+			if let Some(id) = dbg.split("file-event-info\": [\"").nth(1).and_then(|r| r.split('"').next()).and_then(|s| s.trim_start_matches(|c: char| c.is_ascii_alphabetic()).parse::<usize>().ok()) {
+				w(|x| x.log.push(L::FsOverflow { id }));
+				text = format!("fs-overflow-{id}");
+			}
+		}
 		let t = rt::now();
 		if let Some(o) = tokio::verif::current_task_ordinal() {
 			ERRH_ORDINAL.store(o, std::sync::atomic::Ordering::Relaxed);
@@ -293,6 +375,7 @@ async fn body(sc: &EvSc, bounds: Bounds, prop: &str) -> Obs {
 		config.on_action_async(move |a| {
 			let g = g.clone();
 			let ids: Vec<usize> = a.events.iter().map(event_id).collect();
+			log_fs_tags(&a.events);
 			let n = w(|x| {
 				x.batches += 1;
 				let n = x.batches;
@@ -308,6 +391,7 @@ async fn body(sc: &EvSc, bounds: Bounds, prop: &str) -> Obs {
 	} else {
 		config.on_action(move |a| {
 			let ids: Vec<usize> = a.events.iter().map(event_id).collect();
+			log_fs_tags(&a.events);
 			w(|x| {
 				x.batches += 1;
 				let n = x.batches;
@@ -319,6 +403,10 @@ async fn body(sc: &EvSc, bounds: Bounds, prop: &str) -> Obs {
 		});
 	}
 	install_errh(&config, sc.errh, 0);
+	let has_fs = sc.script.iter().any(|(e, _)| e.fs().is_some());
+	if has_fs {
+		config.pathset(["/w/a"]);
+	}
 	let wx = Arc::new(Watchexec::with_config(config).expect("watchexec"));
 	let mut main = wx.main();
 	let mut main_done = false;
@@ -419,7 +507,16 @@ async fn body(sc: &EvSc, bounds: Bounds, prop: &str) -> Obs {
 				let (id, ev) = per[&p][cursor[&p]];
 				*cursor.get_mut(&p).unwrap() += 1;
 				w(|x| x.log.push(L::Send { id, ev, t: now }));
-				let _ = txs[&p].send((id, ev));
+				if ev.fs().is_some() {
+					// delivered synchronously from "the watcher's thread" through the callback the
+					// fs worker registered, i.e. through the real process_event + try_send
+					match fakewatcher::live().first() {
+						Some(wi) => fakewatcher::emit(*wi, Ok(fs_notify_event(id, ev))),
+						None => w(|x| x.log.push(L::Note(format!("no live watcher for fs event #{id}")))),
+					}
+				} else {
+					let _ = txs[&p].send((id, ev));
+				}
 			}
 			Act::Tick => {
 				rt::tick().await;
@@ -567,6 +664,51 @@ fn c01_end(sc: &EvSc, main_done: bool) {
 				push(format!("C01/filter-called-for-bypass/{:?}", class_of(sc, *id)), format!("the filter was consulted for event #{id}"));
 			}
 		}
+	}
+	// filesystem events: each one emitted through the watcher callback is either handed to
+	// the handler exactly once (if the filter accepts it), converted as documented, or
+	// reported as an event-queue overflow exactly once
+	let overflow_errors = log.iter().filter(|l| matches!(l, L::ErrH { text, .. } if text.contains("from fs watcher"))).count();
+	let watcher_missing = log.iter().any(|l| matches!(l, L::Note(s) if s.starts_with("no live watcher")));
+	let mut unaccounted: Vec<usize> = vec![];
+	for (id, (ev, _)) in sc.script.iter().enumerate() {
+		if ev.fs().is_none() || watcher_missing {
+			continue;
+		}
+		let sent = log.iter().any(|l| matches!(l, L::Send { id: i, .. } if *i == id));
+		if !sent {
+			continue;
+		}
+		let n_del = delivered.get(&id).copied().unwrap_or(0);
+		let filtered = log.iter().any(|l| matches!(l, L::FilterCall { id: i } if *i == id));
+		if n_del == 0 && !(filtered && !ev.deliverable()) {
+			// neither delivered nor rejected by the filter: must have overflowed the queue
+			unaccounted.push(id);
+		}
+		if let Some(tags) = log.iter().find_map(|l| if let L::FsTags { id: i, tags } = l { (*i == id).then(|| tags.clone()) } else { None }) {
+			let want = fs_expected_tags(id, *ev);
+			if tags != want {
+				let k = ev.fs().map_or(0, |x| x.0);
+				push(format!("C01/fs-event-conversion/{:?}", all_kinds()[k as usize]), format!("fs event #{id}: handler saw tags {tags}, expected {want}"));
+			}
+		}
+	}
+	if !main_done && sc.err_chan >= sc.script.len() {
+		if unaccounted.len() > overflow_errors {
+			push(
+				"C01/fs-event-lost".into(),
+				format!("fs events {unaccounted:?} were neither delivered nor filtered, but only {overflow_errors} queue-overflow errors were reported"),
+			);
+		}
+		if overflow_errors > unaccounted.len() {
+			push(
+				"C01/fs-event-overflow-reported-but-delivered".into(),
+				format!("{overflow_errors} queue-overflow errors for {} undelivered fs events", unaccounted.len()),
+			);
+		}
+	}
+	if watcher_missing {
+		push("C01/fs-source-has-no-watcher".into(), "a path set was configured but no watcher was live when the change happened".into());
 	}
 }
 
@@ -770,6 +912,7 @@ pub fn scenarios(prop: &str, tier: Tier) -> Vec<(EvSc, Vec<Bounds>)> {
 				}
 			}
 		}
+		"C01fs" => {}
 		"C02" => {
 			let (len, k): (usize, usize) = match tier {
 				Tier::Quick => (3, 1),
@@ -834,6 +977,38 @@ pub fn scenarios(prop: &str, tier: Tier) -> Vec<(EvSc, Vec<Bounds>)> {
 			}
 		}
 		_ => {}
+	}
+	if prop == "C01" {
+		// the fs source: every notify event kind x {0,1,2} paths through the real callback
+		let nk = all_kinds().len() as u8;
+		for k in 0..nk {
+			for n in 0..=2u8 {
+				let mut sc = EvSc::base(vec![(Ev::FsPass(k, n), 0)], 0);
+				sc.horizon = 1;
+				out.push((sc, ladder(0)));
+			}
+		}
+		// bursts against a small event queue while the handler is busy (overflow path), and
+		// mixed with synthetic sends and rejected fs events
+		let (len, k): (usize, usize) = match tier {
+			Tier::Quick => (3, 1),
+			Tier::Thorough => (4, 2),
+		};
+		let content = 13u8; // Modify(Data(Content))
+		let alpha = [Ev::FsPass(content, 1), Ev::FsRej(content, 1), Ev::FsPass(2, 2), Ev::NPass];
+		for s in upto(&alpha, len) {
+			if !s.iter().any(|e| e.fs().is_some()) {
+				continue;
+			}
+			let l = s.len();
+			let passes = if l == len { ladder(k.saturating_sub(1)) } else { ladder(k) };
+			for (chan, gated, thr) in [(1usize, true, 2u64), (2, true, 0), (4096, false, 2)] {
+				let mut sc = EvSc::base(s.iter().map(|e| (*e, 0)).collect(), thr);
+				sc.chan = chan;
+				sc.gated = gated;
+				out.push((sc, passes.clone()));
+			}
+		}
 	}
 	if prop == "C15" {
 		// a slow error handler: the hook task falls behind while events keep flowing
